@@ -141,14 +141,17 @@ func scenarioEvQuit(cfg config, r *hx.Rng) (rec, []mmRec) {
 			ee := event.New()
 			quit := make(chan struct{})
 			var subs, pubs sync.WaitGroup
+			selfUnsub := rr.Intn(2) == 0 // the subscriber unsubscribes itself from inside its receive loop
 			for t := 0; t < topics; t++ {
 				for s := 0; s < subsPer; s++ {
 					ch := ee.Subscribe(name(t))
+					topic := name(t)
+					budget := 1 + rr.Intn(20)
 					subs.Add(1)
 					go func() { // the consumer loop of engine.go / generator.go
 						defer subs.Done()
 						defer c.guard("subscriber")
-						for {
+						for got := 0; ; {
 							select {
 							case <-quit:
 								return
@@ -156,11 +159,28 @@ func scenarioEvQuit(cfg config, r *hx.Rng) (rec, []mmRec) {
 								if !ok {
 									return
 								}
+								got++
+								if selfUnsub && got == budget {
+									// stops reading and removes itself while publishers may be sending to it
+									_ = ee.Unsubscribe(topic, ch)
+									return
+								}
 							}
 						}
 					}()
 				}
 			}
+			// somebody subscribes while publishers may be blocked on a reader that quit; must not wait for them
+			var lateWG sync.WaitGroup
+			lateWG.Add(1)
+			go func() {
+				defer lateWG.Done()
+				defer c.guard("late subscriber")
+				time.Sleep(time.Duration(100+rr.Intn(300)) * time.Microsecond)
+				ch := ee.Subscribe(name(0))
+				for range ch {
+				}
+			}()
 			var stopPub atomic.Bool
 			for p := 0; p < n; p++ {
 				pubs.Add(1)
@@ -185,6 +205,9 @@ func scenarioEvQuit(cfg config, r *hx.Rng) (rec, []mmRec) {
 			c.setParam("phase", 2)
 			stopPub.Store(true)
 			pubs.Wait()
+			c.setParam("phase", 3)
+			_ = ee.Close() // ends the late subscriber if it subscribed after the first Close
+			lateWG.Wait()
 			c.setParam("phase", 0)
 			c.tick(n + 1)
 		}
